@@ -153,7 +153,7 @@ func (f *Frame) execInstr(in ssa.Instruction, reach string, st *State) string {
 		key := "closax:" + id
 		if !e.declared[key] {
 			e.declared[key] = true
-			e.pre.asserts.WriteString("(assert (not (= " + id + " 0)))\n")
+			e.pre.asserts.WriteGlobal("(assert (not (= " + id + " 0)))\n")
 		}
 		f.vals[x] = Val{T: x.Type(), C: []string{id}, Clos: &ClosVal{Fn: fn, Bindings: bs}}
 	case *ssa.Store:
@@ -465,7 +465,7 @@ func (e *Eng) addrInt(a *AddrVal, t types.Type) string {
 	key := "baseax:" + a.Reg
 	if !e.declared[key] {
 		e.declared[key] = true
-		e.pre.asserts.WriteString("(assert (and (<= 0 (baseaddr.i " + a.Reg + ")) (<= (baseaddr.i " + a.Reg + ") 4611686018427387904)))\n")
+		e.pre.asserts.WriteGlobal("(assert (and (<= 0 (baseaddr.i " + a.Reg + ")) (<= (baseaddr.i " + a.Reg + ") 4611686018427387904)))\n")
 	}
 	return sx("+", sx("baseaddr.i", a.Reg), a.Idx)
 }
